@@ -228,7 +228,7 @@ type outcome struct {
 }
 
 // OpTimeout bounds one operation (a key object that never returns from Sign/SetIndex is a violation, not a reason to hang).
-var OpTimeout = 3 * time.Minute
+var OpTimeout = 90 * time.Second
 
 func apply(k *xmss.XMSS, op Op) outcome {
 	ch := make(chan outcome, 1)
@@ -285,10 +285,10 @@ func (e *explorer) step(k *xmss.XMSS, op Op, ops []Op) (accepted bool) {
 		expectOK = uint64(op.J) < e.numEl && uint64(op.J) >= idx
 	}
 	if o.kind != "ok" && o.kind[:7] != "refused" {
-		e.fail("C02", "operation-faulted", ops, map[string]any{"index_before": idx, "observed": o.kind, "expected": "value or explicit refusal"})
+		e.fail("C02", "operation-faulted", ops, map[string]any{"index_before": idx, "observed": o.kind, "expected": "value or explicit refusal", "expensive_to_reproduce": o.kind[:4] == "hang"})
 		if o.kind[:4] == "hang" {
-			e.fail("C01", "operation-did-not-return", ops, map[string]any{"observed": o.kind})
-			e.fail("C08", "operation-did-not-return", ops, map[string]any{"observed": o.kind})
+			e.fail("C01", "operation-did-not-return", ops, map[string]any{"observed": o.kind, "expensive_to_reproduce": true})
+			e.fail("C08", "operation-did-not-return", ops, map[string]any{"observed": o.kind, "expensive_to_reproduce": true})
 			e.hung = true
 		}
 		return false
